@@ -66,6 +66,7 @@ type SliceV struct {
 	Arr     int
 	Lo, Hi  int
 	Cap     int // absolute end of capacity in the backing array
+	CapUnk  bool // capacity not known (make with an undetermined cap): at least Hi
 }
 
 type ArrV struct {
